@@ -1,6 +1,6 @@
 SPECIFICATION ISpec
 CONSTANTS
-  Procs = {1, 2}
+  Procs = {1, 2, 3}
   MaxItems = 2
   Kind = "queue"
 INVARIANTS OneToken ChannelsNeverOverflow QueueCondition GetNeverEmpty
